@@ -59,6 +59,16 @@ CLAIMED = {
         "sampled by TLC simulation.",
    technique="TLA+ abstract machine + program constructor; TLC behaviours replayed through mir2c+gcc vs the interpreter",
    design="DESIGN.md §4 C20"),
+ "C16": dict(level="model_checking",
+   text="MIRGenLife.tla models link/interface choice, explicit, eager and lazy whole-function generation, repeated generation, output, "
+        "interpretation, calls through the public address and a module linked later that calls and inlines already generated functions; TLC "
+        "checks GenIdempotent/NoRegress/CodeImpliesTarget and emits every transition of the state graph with a shortest path. Each history is "
+        "replayed on program pairs built by MIRProg.tla: after every action the MIR_output_item text of each function must equal the text "
+        "recorded after the first link, MIR_gen must return the entry it returned before, item->addr must not move, and every call must give "
+        "the specification's result, memory and external-call log.",
+   note="Histories exhaustive to depth 4 (quick) / 6 (thorough) over 3 functions; programs sampled. Lazy-BB generation is outside this property.",
+   technique="TLA+ lifecycle state machine (TLC BFS, all transitions) replayed through the API on TLC-generated programs (direction A)",
+   design="DESIGN.md §4 C16, §3.5"),
 }
 NOT_YET = "not claimed yet: the specification/binding for this property is still under construction in this round (DESIGN.md §7 order)"
 
